@@ -33,13 +33,14 @@ type Step struct {
 
 // Case is a sequence of hellos against a server with hello verification on.
 type Case struct {
-	Ver      int    `json:"ver"` // 12 | 13
-	Family   string `json:"family"`
-	KnownID  bool   `json:"knownid,omitempty"`  // 1.2: first hello offers a session id the server knows
-	BogusID  bool   `json:"bogusid,omitempty"`  // first hello offers an unknown session id
-	SrvStore bool   `json:"srvstore,omitempty"` // the server has a session store (which does not know the offered id)
-	IvlMs    int    `json:"ivl"`
-	Steps    []Step `json:"steps"`
+	Ver       int    `json:"ver"` // 12 | 13
+	Family    string `json:"family"`
+	KnownID   bool   `json:"knownid,omitempty"`   // 1.2: first hello offers a session id the server knows
+	BogusID   bool   `json:"bogusid,omitempty"`   // first hello offers an unknown session id
+	SrvStore  bool   `json:"srvstore,omitempty"`  // the server has a session store (which does not know the offered id)
+	NoBackoff bool   `json:"nobackoff,omitempty"` // server configured with WithDisableRetransmitBackoff
+	IvlMs     int    `json:"ivl"`
+	Steps     []Step `json:"steps"`
 }
 
 var hrrRandom = []byte{0xCF, 0x21, 0xAD, 0x74, 0xE5, 0x9A, 0x61, 0x11, 0xBE, 0x1D, 0x8C, 0x02, 0x1E, 0x65, 0xB8, 0x91, 0xC2, 0xA2, 0x11, 0x16, 0x7A, 0xBB, 0x8C, 0x5E, 0x07, 0x9E, 0x09, 0xE2, 0xC8, 0xA8, 0x33, 0x9C}
@@ -62,6 +63,7 @@ func epsFor(c *Case) (cl, sv scen.EP) {
 	if c.SrvStore {
 		sv.Store = "ss"
 	}
+	sv.NoBackoff = c.NoBackoff
 
 	return cl, sv
 }
@@ -188,6 +190,13 @@ func alter(ch *scen.ClientHello, how string) (*scen.ClientHello, bool) {
 		out.Suites[0], out.Suites[1] = out.Suites[1], out.Suites[0]
 	case "sid":
 		out.SID = append(append([]byte(nil), ch.SID...), 0x5a)
+	case "sid-content":
+		// same length, other content (only possible when the first hello offered a session id)
+		if len(ch.SID) == 0 {
+			return &out, false
+		}
+		out.SID = append([]byte(nil), ch.SID...)
+		out.SID[len(out.SID)/2] ^= 0x21
 	case "compression":
 		out.Comp = append(append([]byte(nil), ch.Comp...), 1)
 	case "ext-byte":
@@ -310,7 +319,7 @@ func run(c Case, r *pbt.R) {
 		scen.Settle()
 		recSeq := uint64(0)
 		var issued [][]byte // cookies issued so far, in order
-		var recvAt []time.Duration
+		var recvAt, ackAt []time.Duration
 		recvBytes := 0
 		dead := func() bool {
 			select {
@@ -366,6 +375,20 @@ func run(c Case, r *pbt.R) {
 				if st.GapMs >= c.IvlMs {
 					idleGap = true
 				}
+			}
+			if st.Cookie == "ack" {
+				// not a ClientHello at all: a plaintext ACK record with an empty record list. Alone at its
+				// instant, so that any cookie request it provokes is attributable.
+				time.Sleep(time.Millisecond)
+				d := []byte{26, 0xfe, 0xfd, 0, 0, 0, 0, 0, 0, byte(recSeq >> 8), byte(recSeq), 0, 2, 0, 0}
+				recSeq++
+				n.Inject("C", "S", d)
+				scen.Settle()
+				ackAt = append(ackAt, n.Now())
+				time.Sleep(time.Millisecond)
+				nNonAccepting++
+
+				continue
 			}
 			for rep := 0; rep <= st.Repeat; rep++ {
 				var cookie []byte
@@ -458,6 +481,13 @@ func run(c Case, r *pbt.R) {
 				switch k {
 				case "HVR", "HRR":
 					requests++
+					for _, a := range ackAt {
+						if a == ev.T && !isRecvInstant(ev.T) {
+							r.Failf("C13|"+ver+"|cookie-request-in-response-to-ack", "cookie request emitted at %v in response to a plaintext ACK record, no ClientHello arrived then (hellos at %v)", ev.T, recvAt)
+
+							return
+						}
+					}
 					if !isRecvInstant(ev.T) {
 						r.Failf("C13|"+ver+"|cookie-request-on-timer", "cookie request emitted at %v, not at the instant of a ClientHello receipt %v", ev.T, recvAt)
 
@@ -533,7 +563,7 @@ func run(c Case, r *pbt.R) {
 
 var (
 	cookies = []string{"absent", "right", "wrongbyte", "truncated", "extended", "stale", "empty"}
-	alters  = []string{"none", "random", "suites-drop", "suites-swap", "sid", "compression", "ext-byte", "ext-drop", "ext-add", "version"}
+	alters  = []string{"none", "random", "suites-drop", "suites-swap", "sid", "sid-content", "compression", "ext-byte", "ext-drop", "ext-add", "version"}
 )
 
 func gen(t *rapid.T) Case {
@@ -549,10 +579,11 @@ func gen(t *rapid.T) Case {
 			c.SrvStore = rapid.Bool().Draw(t, "srvstore")
 		}
 	}
+	c.NoBackoff = rapid.IntRange(0, 3).Draw(t, "nobackoff") == 0
 	ns := rapid.IntRange(1, 5).Draw(t, "nsteps")
 	for i := 0; i < ns; i++ {
 		st := Step{
-			Cookie: rapid.SampledFrom(cookies).Draw(t, "cookie"),
+			Cookie: rapid.SampledFrom(append(append([]string(nil), cookies...), "ack")).Draw(t, "cookie"),
 			Alter:  "none",
 			GapMs:  rapid.SampledFrom([]int{0, 0, c.IvlMs / 2, c.IvlMs, 10 * c.IvlMs, 300000}).Draw(t, "gap"),
 			Frag:   rapid.IntRange(0, 4).Draw(t, "frag") == 0,
@@ -569,6 +600,16 @@ func gen(t *rapid.T) Case {
 
 func enumGrid(_ string, yield func(Case) bool) {
 	for _, ver := range []int{12, 13} {
+		for _, nb := range []bool{false, true} {
+			// silence after the first hello (the run ends with ten idle minutes), with and without backoff
+			if !yield(Case{Ver: ver, Family: "cert", IvlMs: 100, NoBackoff: nb, Steps: []Step{{Cookie: "absent", Alter: "none", GapMs: 3000}}}) {
+				return
+			}
+			// plaintext ACK records while the server waits for the cookie
+			if !yield(Case{Ver: ver, Family: "cert", IvlMs: 1000, NoBackoff: nb, Steps: []Step{{Cookie: "ack"}, {Cookie: "ack"}, {Cookie: "ack"}, {Cookie: "right", Alter: "none"}}}) {
+				return
+			}
+		}
 		for _, ck := range cookies {
 			for _, al := range alters {
 				for _, gap := range []int{0, 5000} {
